@@ -20,8 +20,9 @@ def gen_case(rng, tier, wrap=False):
         first = BASE + rng.randint(0, 20)
         days, d = [], first
         sparse = rng.random() < 0.25
+        calendar_days = rng.random() < 0.25        # vendors with a bar for every calendar day (weekend-dated rows)
         while len(days) < n:
-            if (d + 3) % 7 <= 4 and rng.random() < 0.9:
+            if ((d + 3) % 7 <= 4 or calendar_days) and rng.random() < 0.9:
                 days.append(d)
             d += 1
             if sparse and rng.random() < 0.3:
@@ -124,8 +125,9 @@ class C06(Prop):
         for a, rows in c['assets'].items():
             want = sorted([[r[0]] + [('nan' if v is None else v) for v in r[1:]] for r in rows])
             if sorted(impl['loaded'][a]) != want:
+                # the frame the source keeps is not the file's rows: reported, and the answers are still judged against the file
                 j.disagreements.append('CSV for %s was not parsed as written: %s vs %s' % (a, impl['loaded'][a][:3], want[:3]))
-                return j
+                break
         manswers = {}
         for a, res in zip(sorted(c['assets']), mod):
             ts = [t for (b, t) in c['queries'] if b == a]
